@@ -26,7 +26,10 @@ TSources == IsEv("Sources") /\ pc = "done" /\ Chk("SameSourcesAsApi", Ev.same) /
 TSummary == IsEv("Summary") /\ pc = "done" /\ Chk("SummaryAgreesWithSources", Ev.consistent) /\ UNCHANGED cvars
 (* `naunet example`: the configuration it writes (through `naunet init`) holds the tables of the bundled example it was asked for *)
 TExample == IsEv("Example") /\ Chk("ExampleConfigIsTheExample", Ev.same) /\ UNCHANGED cvars
-TNext == TConfig \/ TDirect \/ TContent \/ TRender \/ TSources \/ TSummary \/ TExample
+(* `naunet example` run for real into a directory that already holds an older copy of the example's network file: the project holds the
+   bundled network (the file, and the reaction count of the rendered sources) *)
+TExampleRun == IsEv("ExampleRun") /\ Chk("ExampleProjectHoldsTheBundledNetwork", Ev.same) /\ UNCHANGED cvars
+TNext == TExampleRun \/ TConfig \/ TDirect \/ TContent \/ TRender \/ TSources \/ TSummary \/ TExample
 TSpec == TInit /\ [][TNext]_<<cvars, tid, l>>
 Track ==
   /\ Chk("Inv:RoundTripId", RoundTripId)
